@@ -17,6 +17,9 @@ Case grammar (one line per case; doubles as C99 hex floats):
   binned0 S N                      -> the same through the overloads without a background argument
   kde n (v w)* xmin xmax bw        -> 150 ordinates at the tabulation abscissae | 149 mid-segment ordinates, Interpolation::Integrate
   kde0 n (v w)* xmin xmax          -> the same through the call without a bandwidth argument (default: automatic bandwidth)
+  Sizes: besides the short lists of the streams per function, every container argument and every run of calls is driven on a ladder
+  2^k-1, 2^k, 2^k+1 / round decimal / random sizes: 31..4200 bins (20000 thorough), 63..520 KDE samples (2100), 31..401 chi-bar weights,
+  33..1100 likelihood calls in one process (5000), the Poisson and binomial masses over their whole ranges of counts in one run.
   O = "@ n (name k args value)*"   : the oracle table = the values the C++ functions of Special_Functions.cpp return for the
                                      calls the model makes (computed by a first pass through the harness, ops d_<name>)."""
 import math, os
@@ -40,7 +43,7 @@ LEVEL_TEXT = (
     "inside (0,1), -> 1 / -> 0, median 1/2, point symmetry; Maxwell-Boltzmann CDF in [0,1), 0 below the support, -> 1; binomial: CDF is the partial sum, the masses sum to one, mass >= 0, 0 beyond the trials (given that the "
     "Binomial_Coefficient parameter returns C(n,k)); Poisson: the log-sum equals e^-mu mu^k / k!, the mean-0 conventions, the partial sum of the masses equals "
     "1 - (1/n!) RInt t^n e^-t 0 mu (the regularised upper incomplete gamma function at integer a), hence CDF_Poisson is the partial sum whenever GammaQ returns "
-    "that function; likelihood = mass at s+b, log = logarithm, binned = sum/product, size mismatch exits, empty background = zeros, a bin without observed events contributes -(s+b) whatever the split (so -b without predicted signal); chi-square: the log-space "
+    "that function; likelihood = mass at s+b, log = logarithm, binned = sum/product, size mismatch exits, empty background = zeros, the binned value of a histogram cut into consecutive blocks of any sizes is the sum (product) of the blocks' values, a bin without observed events contributes -(s+b) whatever the split (so -b without predicted signal); chi-square: the log-space "
     "density equals x^(k/2-1) e^(-x/2) / (2^(k/2) Gamma(k/2)) given GammaLn = ln Gamma, CDF = GammaP(x/2,k/2), CDF' = density given the defining derivative of P, "
     "dof-0 conventions, chi-bar mixture linearity and clamp; Quantile_Gauss: exact inverse given the exact inverse error function and error <= sqrt2 sigma delta "
     "for an Inv_Erf accurate to delta; Inv_CDF_Poisson(0,c) is the exact inverse; KDE: the tabulation never indexes out of bounds; the automatic bandwidth's two-pass variance is >= 0 for non-negative weights, the bandwidth is > 0 unless every "
@@ -478,6 +481,132 @@ def gen_kde(rng, n, nmax):
     return out
 
 
+# ------------------------------------------------------------------ sizes of the container arguments
+# Every list the library receives (histogram bins, KDE samples, chi-bar weights) and every run of calls in one process is also driven at
+# sizes far beyond the handful of elements of the streams above: a geometric ladder 2^k - 1, 2^k, 2^k + 1 (the block / buffer / unrolling
+# sizes an implementation may use internally, both sides of each), round decimal sizes and random sizes in between.
+def size_ladder(lo, hi):
+    v = set(2 ** k + d for k in range(3, 16) for d in (-1, 0, 1)) | {100, 300, 1000, 3000, 10000}
+    return sorted(x for x in v if lo <= x <= hi)
+
+
+def sizes(rng, n, lo, hi):
+    """n sizes in lo..hi: the ladder in shuffled order (all of it when n allows), then log-uniform random sizes"""
+    lad = size_ladder(lo, hi); rng.shuffle(lad)
+    out = lad[:n]
+    while len(out) < n: out.append(int(round(logu(rng, lo, hi))))
+    return out
+
+
+def gen_binned_large(rng, n, cap):
+    """histograms with 31 .. cap bins, bin means s+b in 1e-3..1e3, counts 0..500.  Shapes: low statistics (means 1e-3..0.3, counts 0/1/2:
+    the likelihood itself stays representable, so the product clause is evaluated too); generic; sparse; constant (every bin identical
+    bit for bit); each through the explicit background, the all-zero background, the empty list and the two-argument overload;
+    a few requests whose lists differ in length by one (must exit)"""
+    out = []
+    for nb in sizes(rng, n, 31, cap):
+        shape = rng.choice(["lowstat", "lowstat", "generic", "sparse", "constant"])
+        call = rng.choice(["explicit", "explicit", "zerobg", "default", "default0"])
+        s = []; b = []; k = []
+        if shape == "constant":
+            tot = logu(rng, 1e-3, 20.0); s0, b0 = split_mean(rng, tot); k0 = lik_count(rng, tot) if rng.random() < 0.5 else 0
+        for i in range(nb):
+            if shape == "constant": si, bi, ki = s0, b0, k0
+            else:
+                if shape == "lowstat": tot = logu(rng, 1e-3, 0.3)
+                else: tot = rng.choice([logu(rng, 1e-3, 1e3), logu(rng, 1e-3, 1e1), logu(rng, 1e-3, 1e1)])
+                if shape == "sparse" and rng.random() < 0.7: si, bi = 0.0, tot
+                else: si, bi = split_mean(rng, tot)
+                if shape == "lowstat":
+                    u = rng.random(); ki = 0 if u < math.exp(-tot) else (1 if u < math.exp(-tot) * (1 + tot) else 2)
+                else: ki = 0 if rng.random() < 0.3 else min(500, max(0, int(tot + rng.uniform(-2, 3) * (math.sqrt(tot) + 1))))
+            if call != "explicit": si, bi = si + bi, 0.0
+            s.append(si); b.append(bi); k.append(ki)
+        r = rng.random()
+        tags = ("binned", "many-bins", shape, call)
+        if call == "default0":
+            if r < 0.08: k = k + [0]
+            out.append(Proto(f"binned0 {flist(s)} {ilist(k)}", (), tags)); continue
+        if call == "default": b = []
+        if r < 0.05: b = b + [1.0] if b else [1.0] * (nb - 1)
+        elif r < 0.10: k = k[:-1]
+        out.append(Proto(f"binned {flist(s)} {ilist(k)} {flist(b)}", (), tags))
+    return out
+
+
+def gen_likseq_long(rng, n, cap):
+    """long runs of single-bin likelihood calls in one process (33 .. cap calls): scans of one argument, a repeated point, random points"""
+    out = []
+    for m in sizes(rng, n, 33, cap):
+        kind = rng.choice(["bscan", "nscan", "repeat", "random", "aba"])
+        tot = lik_mean(rng); s0, b0 = split_mean(rng, tot); k0 = lik_count(rng, tot)
+        t1 = lik_mean(rng); s1, b1 = split_mean(rng, t1); k1 = lik_count(rng, t1)
+        calls = []
+        for j in range(m):
+            if kind == "bscan": calls.append((s0, k0, max(0.0, min(1e3 - s0, logu(rng, 1e-3, 1e3))) if j else b0))
+            elif kind == "nscan": calls.append((s0, (k0 + j) % 501, b0))
+            elif kind == "repeat": calls.append((s0, k0, b0))
+            elif kind == "aba": calls.append((s0, k0, b0) if j % 2 == 0 else (s1, k1, b1))
+            else:
+                t2 = lik_mean(rng); s2, b2 = split_mean(rng, t2); calls.append((s2, lik_count(rng, t2), b2))
+        calls = [(sv, k, b) for sv, k, b in calls if 1e-3 <= sv + b <= 1e3 + 1]
+        out.append(Proto(f"likseq {len(calls)} " + " ".join(f"{hx(sv)} {k} {hx(b)}" for sv, k, b in calls), (), ("lik", "sequence", "long-run", kind)))
+    return out
+
+
+def gen_kde_large(rng, n, cap):
+    """63 .. cap weighted samples; windows near the origin and far from it; automatic (also through the default argument) and manual bandwidth"""
+    out = []
+    for N in sizes(rng, n, 63, cap):
+        width = rng.choice([1.0, 30.0, logu(rng, 1e-3, 1e3)])
+        lo = rng.choice([0.0, rng.uniform(-5, 5) * width, rng.choice([-1.0, 1.0]) * 10.0 ** rng.uniform(1, 9) * width])
+        hi = lo + width; width = hi - lo
+        kind = rng.random()
+        if kind < 0.35: us = [rng.random() for _ in range(N)]
+        elif kind < 0.6: us = [abs(rng.gauss(0, 0.3)) for _ in range(N)]
+        elif kind < 0.8: us = [rng.gauss(0.5, 0.2) for _ in range(N)]
+        else: us = [rng.gauss(0.3, 0.08) if rng.random() < 0.6 else rng.gauss(0.75, 0.05) for _ in range(N)]     # two populations
+        vals = [lo + width * u for u in us]
+        ws = [1.0] * N if rng.random() < 0.5 else [rng.uniform(0.2, 3.0) for _ in range(N)]
+        if len(set(vals)) < N: ws = [1.0] * N          # equal values carry equal weights (std::sort's order of ties is unspecified)
+        data = " ".join(f"{hx(v)} {hx(w)}" for v, w in zip(vals, ws))
+        r = rng.random()
+        if r < 0.35: out.append(Proto(f"kde {N} {data} {hx(lo)} {hx(hi)} {hx(0.0)}", (), ("kde", "many-samples")))
+        elif r < 0.7: out.append(Proto(f"kde0 {N} {data} {hx(lo)} {hx(hi)}", (), ("kde", "many-samples", "default-argument")))
+        else: out.append(Proto(f"kde {N} {data} {hx(lo)} {hx(hi)} {hx(width * logu(rng, 0.03, 0.5))}", (), ("kde", "many-samples")))
+    return out
+
+
+def gen_chibar_large(rng, n, cap):
+    """weight vectors with 31 .. cap entries (component degrees of freedom up to cap - 1 <= 400)"""
+    out = []
+    for L in sizes(rng, n, 31, cap):
+        kind = rng.random()
+        if kind < 0.4:
+            m = L - 1; w = [math.comb(m, k) / 2.0 ** m for k in range(L)]
+        elif kind < 0.8:
+            r = [rng.random() if rng.random() < 0.8 else 0.0 for _ in range(L)]; sm = sum(r) or 1.0; w = [x / sm for x in r]
+        elif kind < 0.9:
+            r = [rng.random() for _ in range(L)]; sm = sum(r); w = [x / sm * (1 + 1e-3) for x in r]
+        else: w = [rng.random() / L for _ in range(L)]
+        ps = chi_pairs(rng, float(rng.choice([1, L // 2, L - 1, rng.randint(1, L - 1)])), 3)
+        calls = [c for lo, hi, f in ps for x in (lo, hi) for c in calls_chibar_pdf(x, w) + calls_chibar_cdf(x, w)]
+        out.append(Proto(f"chibar {flist(w)} {pairs_txt(ps)}", calls, ("chibar", "many-weights")))
+    return out
+
+
+def gen_whole_support(rng, n):
+    """the mass functions over their whole range of counts in one run of calls: Poisson k = 0..500, binomial k = 0..trials+1"""
+    out = []
+    for _ in range(n):
+        mu = rng.choice([1e-3, 1.0, 1e3, logu(rng, 1e-3, 1e3), logu(rng, 1.0, 1e3)])
+        out.append(Proto(f"poisson {hx(mu)} 0 501", [c for k in range(501) for c in calls_pois_cdf(mu, k)], ("poisson", "whole-support")))
+        tr = rng.choice([170, 169, 128, 100, 64, rng.randint(20, 170)]); p = rng.choice([0.5, rng.random(), logu(rng, 1e-6, 1.0), 1 - logu(rng, 1e-6, 1.0)])
+        calls = [c for k in range(tr + 2) for c in calls_binom_pmf(tr, p, k)]
+        out.append(Proto(f"binomial {tr} {hx(p)} 0 {tr + 2}", calls, ("binomial", "whole-support")))
+    return out
+
+
 def generate(rng, tier):
     big = tier != "quick"
     f = 12 if big else 1
@@ -497,6 +626,12 @@ def generate(rng, tier):
     protos += gen_likseq(rng, 80 * f)
     protos += gen_binned(rng, 160 * f)
     protos += gen_kde(rng, 40 * (4 if big else 1), 150 if big else 60)
+    # container sizes / lengths of call runs (drawn after the streams above, which keep their cases for a given seed)
+    protos += gen_binned_large(rng, 120 if big else 30, 20000 if big else 4200)
+    protos += gen_likseq_long(rng, 40 if big else 6, 5000 if big else 1100)
+    protos += gen_kde_large(rng, 40 if big else 10, 2100 if big else 520)
+    protos += gen_chibar_large(rng, 30 if big else 5, 401)
+    protos += gen_whole_support(rng, 12 if big else 2)
     return resolve(protos)
 
 
@@ -761,7 +896,8 @@ def predicates(c, io):
         if not abs(ll - sm) <= 4 * EPS * (ns + 1) * mag: out.append((op + ":sum", f"binned log-likelihood {ll!r} is not the sum of the bins' {sm!r}"))
         pr = 1.0
         for x in lks: pr *= x
-        if not abs(lk - pr) <= (8 * EPS * (ns + 1) * (mag + 1)) * pr + 1e-320: out.append((op + ":product", f"binned likelihood {lk!r} is not the product of the bins' {pr!r}"))
+        # a partial product in the subnormal range is rounded to a multiple of 2^-1074 and the remaining factors are <= 1: 2^-1074 per bin
+        if not abs(lk - pr) <= (8 * EPS * (ns + 1) * (mag + 1)) * pr + 1e-320 + (ns + 1) * 5e-324: out.append((op + ":product", f"binned likelihood {lk!r} is not the product of the bins' {pr!r}"))
         if not abs(lk - math.exp(ll)) <= 4 * EPS * lk: out.append((op + ":exp-of-log", f"binned likelihood {lk!r} is not exp of the binned log-likelihood"))
         # independent reference: sum over the bins of ln(e^-mu mu^n / n!) at mu = s_i + b_i (bins with mu > 0)
         sg = [tokf(x) for x in t[2:2 + ns]]; ob = [int(x) for x in t[3 + ns:3 + ns + no]]
